@@ -170,3 +170,319 @@ Example ex_path_splitter_multi_escape :
   smarter_path_splitter "."%char "metadata.annotations.[a.b.c/d]" = ["metadata"; "annotations"; "a.b.c/d"] /\
   smarter_path_splitter "."%char "spec.containers.[name=x.y.z].image" = ["spec"; "containers"; "[name=x.y.z]"; "image"].
 Proof. repeat split. Qed.
+
+(* ====================================================================================================
+   Beyond plain field names: indices and [k=v] selectors, with the exact differences between the two
+   Go functions stated as lemmas.
+   ==================================================================================================== *)
+From Coq Require Import Lia.
+
+(* ---------- parts both functions read the same way ---------- *)
+(* an index: a non-negative number without surrounding blanks *)
+Definition index_part (p : string) (i : nat) : Prop := trim_space p = p /\ classify p = PIdx i.
+(* a selector [fld=v] on a field (fld non-empty) *)
+Definition sel_part (p fld v : string) : Prop := trim_space p = p /\ classify p = PSel fld v /\ fld <> "".
+
+Lemma parse_path_single p q : trim_space p = p -> classify p = q -> p <> "" -> parse_path [p] = [q].
+Proof.
+  intros Ht Hc Hn. unfold parse_path, clean_path. cbn [map filter]. rewrite Ht.
+  apply String.eqb_neq in Hn. rewrite Hn. cbn. now rewrite Hc.
+Qed.
+
+Lemma index_part_spec p i : index_part p i -> parse_path [p] = [PIdx i] /\ classify_pm p = PPIdx i.
+Proof.
+  intros [Ht Hc]. split.
+  - apply parse_path_single; auto. intros ->. discriminate.
+  - unfold classify in Hc. unfold classify_pm. destruct (atoi p) as [[neg m]|].
+    + destruct (neg && negb (m =? 0)%N); [discriminate|]. now inversion Hc.
+    + destruct (String.eqb p "-"); [discriminate|]. destruct (String.eqb p "*"); [discriminate|].
+      destruct (is_list_index p); [destruct (split_index_name_value p) as [[? ?]|]|]; discriminate.
+Qed.
+
+Lemma sel_part_spec p fld v :
+  sel_part p fld v ->
+  parse_path [p] = [PSel fld v] /\ classify_pm p = PPSel p /\ split_index_name_value p = Some (fld, v).
+Proof.
+  intros (Ht & Hc & _). split; [|split].
+  - apply parse_path_single; auto. intros ->. discriminate.
+  - unfold classify in Hc. unfold classify_pm. destruct (atoi p) as [[neg m]|].
+    + destruct (neg && negb (m =? 0)%N); discriminate.
+    + destruct (String.eqb p "-"); [discriminate|]. destruct (String.eqb p "*"); [discriminate|].
+      destruct (is_list_index p); [reflexivity|discriminate].
+  - unfold classify in Hc. destruct (atoi p) as [[neg m]|].
+    + destruct (neg && negb (m =? 0)%N); discriminate.
+    + destruct (String.eqb p "-"); [discriminate|]. destruct (String.eqb p "*"); [discriminate|].
+      destruct (is_list_index p); [|discriminate].
+      destruct (split_index_name_value p) as [[a b]|]; [|discriminate]. now inversion Hc.
+Qed.
+
+Section Agree2.
+  Variable parse : string -> option re.
+  Variable enc : node -> string.
+  Variable nonstr : string -> bool.
+  Variable fuel : nat.     (* pm runs with fuel S fuel: without Create one round of doSeq always suffices *)
+
+  Notation pm1 := (pm parse enc nonstr None (S fuel)).
+
+  (* what the three-way agreement says *)
+  Definition agree (lk : res (option node)) (n : node) (r : res (node * list hit)) : Prop :=
+    match lk with
+    | Ok (Some x) => exists a, r = Ok (n, [HAt a]) /\ Match.get_at a n = Some x
+    | Ok None => r = Ok (n, [])
+    | Err => r = Err
+    | _ => False
+    end.
+
+  (* ---------- indices ---------- *)
+  (* an index in range: both go to the same element *)
+  Lemma pm_index_step p i rest es e :
+    index_part p i -> nth_error es i = Some e ->
+    pm1 (p :: rest) (Seq es) = (do r <- pm1 rest e; Ok (Seq (replace_nth i (fst r) es), map (push i) (snd r))) /\
+    lookup (PIdx i :: parse_path rest) (Seq es) = lookup (parse_path rest) e.
+  Proof.
+    intros Hp He. destruct (index_part_spec _ _ Hp) as [_ Hc]. split.
+    - cbn [pm]. rewrite Hc. cbn [is_create andb]. rewrite andb_false_r, He. reflexivity.
+    - apply lookup_found. exact He.
+  Qed.
+
+  (* DIFFERENCE 1: an index out of range is "no match" for PathGetter and an error for PathMatcher *)
+  Lemma pm_index_out_of_range p i rest es :
+    index_part p i -> nth_error es i = None ->
+    pm1 (p :: rest) (Seq es) = Err /\ lookup (PIdx i :: parse_path rest) (Seq es) = Ok None.
+  Proof.
+    intros Hp He. destruct (index_part_spec _ _ Hp) as [_ Hc]. split.
+    - cbn [pm]. rewrite Hc. cbn [is_create andb]. now rewrite andb_false_r, He.
+    - unfold lookup. cbn. now rewrite He.
+  Qed.
+
+  (* DIFFERENCE 2: an index on a null node likewise *)
+  Lemma pm_index_on_null p i rest s v :
+    index_part p i ->
+    pm1 (p :: rest) (Scalar TNull s v) = Err /\ lookup (PIdx i :: parse_path rest) (Scalar TNull s v) = Ok None.
+  Proof.
+    intros Hp. destruct (index_part_spec _ _ Hp) as [_ Hc]. split; [|reflexivity].
+    cbn [pm]. rewrite Hc. cbn. now rewrite andb_false_r.
+  Qed.
+
+  (* ---------- selectors ---------- *)
+  (* the regular expression of the selector finds a match in the encoded field exactly when the field's text
+     equals v (true of a value without metacharacters against plain one-line scalars that do not contain it
+     as a proper substring; PathMatcher itself searches, unanchored: Match.match_elem_not_exact_lemma) *)
+  Definition sel_faithful (fld v : string) (es : list node) : Prop :=
+    exists r, elem_regex parse v = Ok r /\
+              forall kvs x, In (Map kvs) es -> find_field fld kvs = Some x ->
+                            matches r (enc x) = String.eqb (node_value x) v.
+
+  (* with a faithful expression PathMatcher visits exactly the elements the path selector [fld=v] answers to —
+     ALL of them (DIFFERENCE 3: PathGetter takes the first) *)
+  Lemma pm_selector_step p fld v rest es :
+    sel_part p fld v -> sel_faithful fld v es ->
+    pm1 (p :: rest) (Seq es) =
+    (do r <- visit_elems (fun e => if sel_match fld v e then pm1 rest e else Ok (e, [])) 0 es;
+     Ok (Seq (fst r), snd r)).
+  Proof.
+    intros Hp (r & Hr & Hf). destruct (sel_part_spec _ _ _ Hp) as (_ & Hc & Hs).
+    destruct Hp as (_ & _ & Hfld). pose proof Hfld as Hfld'. apply String.eqb_neq in Hfld'.
+    cbn [pm]. rewrite Hc, Hs. cbn [retry_loop is_create].
+    match goal with |- context [visit_elems ?f 0 es] =>
+      assert (E : forall l i, (forall e, In e l -> In e es) ->
+                  visit_elems f i l = visit_elems (fun e => if sel_match fld v e then pm1 rest e else Ok (e, [])) i l)
+    end.
+    { induction l as [|e t IH]; intros i Hin; [reflexivity|]. cbn [visit_elems].
+      rewrite (IH (S i)) by (intros x Hx; apply Hin; now right).
+      match goal with |- bind ?a _ = bind ?b _ => assert (Eab : a = b); [|rewrite Eab; reflexivity] end.
+      rewrite Hr. cbn [bind]. rewrite Hfld'. unfold sel_match. rewrite Hfld'.
+      destruct e as [|kvs|]; try reflexivity.
+      destruct (find_field fld kvs) as [x|] eqn:F; [|reflexivity].
+      rewrite (Hf kvs x (Hin _ (or_introl eq_refl)) F). reflexivity. }
+    rewrite (E es 0 (fun e H => H)).
+    destruct (visit_elems _ 0 es) as [[es' hs]| | |]; cbn; try reflexivity.
+    destruct hs; reflexivity.
+  Qed.
+
+  Fixpoint first_sat {A} (f : A -> bool) (l : list A) : option A :=
+    match l with [] => None | x :: t => if f x then Some x else first_sat f t end.
+  Fixpoint count_sat {A} (f : A -> bool) (l : list A) : nat :=
+    match l with [] => 0 | x :: t => (if f x then 1 else 0) + count_sat f t end.
+
+  Lemma child_sel_first fld v es : FnsSpec.child (PSel fld v) (Seq es) = first_sat (sel_match fld v) es.
+  Proof.
+    cbn. induction es as [|e t IH]; cbn; [reflexivity|].
+    destruct (sel_match fld v e); [reflexivity|]. rewrite <- IH.
+    destruct (find_index (sel_match fld v) t); reflexivity.
+  Qed.
+
+  Lemma lookup_selector_step fld v ps es :
+    lookup (PSel fld v :: ps) (Seq es) =
+    match first_sat (sel_match fld v) es with Some e => lookup ps e | None => Ok None end.
+  Proof.
+    rewrite <- child_sel_first. destruct (FnsSpec.child (PSel fld v) (Seq es)) as [e|] eqn:C.
+    - now rewrite (lookup_found _ _ _ _ C).
+    - unfold lookup. now rewrite (walk_missing_nocreate _ _ _ _ C).
+  Qed.
+
+  (* one pass of PathMatcher over a list in which at most one element answers to the selector *)
+  Lemma visit_unique (sel : node -> bool) (g : node -> res (node * list hit)) :
+    forall es i, count_sat sel es <= 1 ->
+    match first_sat sel es with
+    | None => visit_elems (fun e => if sel e then g e else Ok (e, [])) i es = Ok (es, [])
+    | Some e => exists pre post,
+        es = (pre ++ e :: post)%list /\
+        visit_elems (fun e => if sel e then g e else Ok (e, [])) i es =
+        (do r <- g e; Ok ((pre ++ fst r :: post)%list, map (push (i + List.length pre)) (snd r)))
+    end.
+  Proof.
+    induction es as [|e t IH]; intros i Hc; [reflexivity|]. cbn [first_sat visit_elems count_sat] in *.
+    destruct (sel e) eqn:Se.
+    - (* e is the match; nothing in t matches *)
+      assert (Ht : count_sat sel t = 0) by lia.
+      assert (Hn : forall j, visit_elems (fun e => if sel e then g e else Ok (e, [])) j t = Ok (t, [])).
+      { clear IH Hc. induction t as [|h t IHt]; intros j; [reflexivity|]. cbn in Ht |- *.
+        destruct (sel h); [lia|]. cbn. rewrite (IHt Ht). reflexivity. }
+      exists [], t. split; [reflexivity|]. rewrite Hn. cbn [app List.length]. rewrite Nat.add_0_r.
+      destruct (g e) as [[y hs]| | |]; cbn; [|reflexivity..]. now rewrite app_nil_r.
+    - specialize (IH (S i) ltac:(lia)). destruct (first_sat sel t) as [x|].
+      + destruct IH as (pre & post & -> & V). exists (e :: pre), post. split; [reflexivity|].
+        cbn [bind fst snd]. rewrite V.
+        destruct (g x) as [[y hs]| | |]; cbn; [|reflexivity..].
+        cbn [List.length]. replace (i + S (List.length pre)) with (S (i + List.length pre)) by lia. reflexivity.
+      + cbn [bind]. rewrite IH. reflexivity.
+  Qed.
+
+  (* ---------- the agreement on paths of plain names, indices in range and faithful, unambiguous selectors ---------- *)
+  Fixpoint comm (path : list string) (n : node) {struct path} : Prop :=
+    match path with
+    | [] => True
+    | p :: rest =>
+        (plain_part p = true /\
+         match n with
+         | Map kvs => match find_field p kvs with Some x => comm rest x | None => True end
+         | _ => True
+         end)
+        \/ (exists i, index_part p i /\
+            match n with
+            | Seq es => match nth_error es i with Some e => comm rest e | None => False end
+            | _ => is_null n = false
+            end)
+        \/ (exists fld v, sel_part p fld v /\
+            match n with
+            | Seq es => sel_faithful fld v es /\ count_sat (sel_match fld v) es <= 1 /\
+                        forall e, first_sat (sel_match fld v) es = Some e -> comm rest e
+            | _ => True
+            end)
+    end.
+
+  Lemma nth_error_mid {A} (pre : list A) e post : nth_error (pre ++ e :: post) (List.length pre) = Some e.
+  Proof. induction pre; cbn; auto. Qed.
+
+  Theorem lookup_pm_agree2 path :
+    forall n, comm path n -> agree (lookup (parse_path path) n) n (pm1 path n).
+  Proof.
+    induction path as [|p rest IH]; intros n C.
+    - cbn. exists []. auto.
+    - rewrite parse_path_cons. cbn [comm] in C. destruct C as [[Hp C]|[(i & Hp & C)|(fld & v & Hp & C)]].
+      + (* plain field name *)
+        destruct (plain_part_classify _ Hp) as [PP [_ Hne]]. rewrite PP. cbn [app].
+        cbn [pm]. rewrite (plain_part_classify_pm _ Hp). apply String.eqb_neq in Hne. rewrite Hne.
+        destruct n as [t s w|kvs|es].
+        * unfold lookup. destruct t; cbn; auto.
+        * destruct (find_field p kvs) as [x|] eqn:F.
+          -- assert (Cx : FnsSpec.child (PKey p) (Map kvs) = Some x) by exact F.
+             rewrite (lookup_found _ _ _ _ Cx). specialize (IH x C). unfold agree in *.
+             destruct (lookup (parse_path rest) x) as [[y|]| | |]; auto.
+             ++ destruct IH as [a [P G]]. rewrite P. cbn [bind fst snd map push].
+                rewrite (set_first_same _ _ _ F). exists (index_of_key p kvs :: a). split; [reflexivity|].
+                cbn [Match.get_at Match.child]. now rewrite (nth_index_of_key _ _ _ F).
+             ++ rewrite IH. cbn. now rewrite (set_first_same _ _ _ F).
+             ++ now rewrite IH.
+          -- unfold lookup. cbn. rewrite F. reflexivity.
+        * unfold lookup. cbn. reflexivity.
+      + (* index *)
+        destruct (index_part_spec _ _ Hp) as [PP Hc]. rewrite PP. cbn [app].
+        destruct n as [t s w|kvs|es].
+        * cbn in C. cbn [pm]. rewrite Hc. unfold lookup. destruct t; cbn in *; try discriminate; reflexivity.
+        * cbn [pm]. rewrite Hc. reflexivity.
+        * destruct (nth_error es i) as [e|] eqn:He; [|contradiction].
+          destruct (pm_index_step p i rest es e Hp He) as [P L]. rewrite P, L.
+          specialize (IH e C). unfold agree in *.
+          destruct (lookup (parse_path rest) e) as [[y|]| | |]; auto.
+          -- destruct IH as [a [Pe G]]. rewrite Pe. cbn [bind fst snd map push].
+             rewrite (replace_nth_same _ _ _ He). exists (i :: a). split; [reflexivity|].
+             cbn [Match.get_at Match.child]. now rewrite He.
+          -- rewrite IH. cbn. now rewrite (replace_nth_same _ _ _ He).
+          -- now rewrite IH.
+      + (* selector *)
+        destruct (sel_part_spec _ _ _ Hp) as (PP & Hc & Hs). rewrite PP. cbn [app].
+        destruct n as [t s w|kvs|es].
+        * cbn [pm]. rewrite Hc, Hs. unfold lookup. destruct t; cbn; reflexivity.
+        * cbn [pm]. rewrite Hc, Hs. reflexivity.
+        * destruct C as (Hf & Hu & Cr).
+          rewrite (pm_selector_step p fld v rest es Hp Hf), lookup_selector_step.
+          pose proof (visit_unique (sel_match fld v) (pm1 rest) es 0 Hu) as V.
+          destruct (first_sat (sel_match fld v) es) as [e|] eqn:F.
+          -- destruct V as (pre & post & -> & V). rewrite V. specialize (IH e (Cr e eq_refl)). unfold agree in *.
+             destruct (lookup (parse_path rest) e) as [[y|]| | |]; auto.
+             ++ destruct IH as [a [Pe G]]. rewrite Pe. cbn [bind fst snd map push Nat.add].
+                exists (List.length pre :: a). split; [reflexivity|].
+                cbn [Match.get_at Match.child]. now rewrite nth_error_mid.
+             ++ rewrite IH. reflexivity.
+             ++ now rewrite IH.
+          -- rewrite V. reflexivity.
+  Qed.
+
+  (* DIFFERENCE 3, made precise: when several elements answer to the selector PathMatcher returns them all
+     (here: the two hits of a final selector), PathGetter the first *)
+  Lemma pm_selector_all_matches p fld v e1 e2 :
+    sel_part p fld v -> sel_faithful fld v [e1; e2] ->
+    sel_match fld v e1 = true -> sel_match fld v e2 = true ->
+    pm1 [p] (Seq [e1; e2]) = Ok (Seq [e1; e2], [HAt [0]; HAt [1]]) /\
+    lookup [PSel fld v] (Seq [e1; e2]) = Ok (Some e1).
+  Proof.
+    intros Hp Hf M1 M2. split.
+    - rewrite (pm_selector_step p fld v [] _ Hp Hf). cbn. now rewrite M1, M2.
+    - rewrite lookup_selector_step. cbn. now rewrite M1.
+  Qed.
+End Agree2.
+
+(* DIFFERENCE 4: PathGetter trims path parts and drops empty ones, PathMatcher does not;
+   DIFFERENCE 5: "-" is the last element for PathGetter and a field name for PathMatcher;
+   DIFFERENCE 6: a primitive selector [=v] ends PathMatcher's walk (the rest of the path is ignored),
+                 PathGetter walks on from the element (and fails on a scalar) *)
+Section Differences.
+  Let str (s : string) := Scalar TStr SPlain s.
+  Let ns : string -> bool := fun _ => false.
+  Let pmx := pm (parse_of [("x", Some (lit "x"))]) node_value ns None 1.
+
+  Example diff_trim :
+    lookup (parse_path [" a "; ""]) (Map [("a", str "v")]) = Ok (Some (str "v")) /\
+    pmx [" a "] (Map [("a", str "v")]) = Ok (Map [("a", str "v")], []).
+  Proof. split; reflexivity. Qed.
+
+  Example diff_dash :
+    lookup (parse_path ["-"]) (Map [("-", str "v")]) = Err /\
+    pmx ["-"] (Map [("-", str "v")]) = Ok (Map [("-", str "v")], [HAt [0]]) /\
+    lookup (parse_path ["l"; "-"]) (Map [("l", Seq [str "p"; str "q"])]) = Ok (Some (str "q")) /\
+    pmx ["l"; "-"] (Map [("l", Seq [str "p"; str "q"])]) = Err.
+  Proof. repeat split; reflexivity. Qed.
+
+  Example diff_primitive_selector_ignores_rest :
+    pmx ["[=x]"; "a"; "b"] (Seq [str "x"; str "y"]) = Ok (Seq [str "x"; str "y"], [HAt [0]]) /\
+    lookup (parse_path ["[=x]"; "a"; "b"]) (Seq [str "x"; str "y"]) = Err.
+  Proof. split; vm_compute; reflexivity. Qed.
+
+  (* the selector agreement is not vacuous: a faithful expression, one match, a further field below it *)
+  Example ex_comm :
+    let d := Map [("l", Seq [Map [("name", str "x"); ("v", str "1")]; Map [("name", str "y")]])] in
+    comm (parse_of [("x", Some (lit "x"))]) node_value ["l"; "[name=x]"; "v"] d /\
+    lookup (parse_path ["l"; "[name=x]"; "v"]) d = Ok (Some (str "1")) /\
+    pmx ["l"; "[name=x]"; "v"] d = Ok (d, [HAt [0; 0; 1]]).
+  Proof.
+    cbn zeta. split; [|split; vm_compute; reflexivity].
+    left. split; [reflexivity|]. cbn.
+    right; right. exists "name", "x". split; [repeat split; discriminate|].
+    split.
+    - exists (lit "x"). split; [reflexivity|]. intros kvs x [H|[H|[]]] F; inversion H; subst; cbn in F; inversion F; reflexivity.
+    - split; [cbn; lia|]. intros e H. cbn in H. inversion H; subst.
+      left. split; [reflexivity|]. exact I.
+  Qed.
+End Differences.
